@@ -25,6 +25,8 @@ func checkC05(e *Env) {
 	e.R.RuleText = "E6 (U2/U3/U5) restricted to bundle/decoder.go; E2 gates and for-all loops; cursor-phi rule on the section loop"
 	scope := parserScope(e, []string{"bundle.Read"})
 	runUntrusted(e, scope, inBundleDecoder, nil)
+	// strings inside sections and responses are never shortened to what is left of their container
+	stringsAreExact(e)
 	e.R.Floor("U2", 5)
 	e.R.Floor("U3", 2)
 	e.R.Floor("U5", 7)
@@ -111,7 +113,7 @@ func sectionCursor(e *Env, lm *ssa.Function) {
 	var ph *ssa.Phi
 	for _, b := range lm.Blocks {
 		for _, in := range b.Instrs {
-			if p, ok := in.(*ssa.Phi); ok && p.Comment == "offset" {
+			if p, ok := in.(*ssa.Phi); ok && prov.CanonLocal(p.Parent(), p.Comment) == "offset" {
 				// the loop-header phi: has an incoming back edge
 				for i := range p.Edges {
 					if b.Dominates(b.Preds[i]) {
